@@ -416,6 +416,69 @@ def recursion_sccs(P, body_ids):
     return out
 
 
+def _origin_calls(b, l, depth=8):
+    """call statements a local's value comes from, through reborrows / copies"""
+    from flow import defs_of
+    out = []; work = [l]; seen = set()
+    while work and depth > 0:
+        depth -= 1
+        x = work.pop()
+        if x in seen:
+            continue
+        seen.add(x)
+        for q, st in defs_of(b, x):
+            if st['k'] == 'call':
+                out.append(st)
+            elif st['k'] == 'assign':
+                rv = st['rv']
+                o = rv.get('pl') if 'pl' in rv else rv.get('o')
+                if is_local_op(o):
+                    work.append(o['l'])
+    return out
+
+
+def _range_from_advances(b, rng):
+    """is the start of this RangeFrom certainly >= 1?  (unknown shapes count as advancing: only the provably-maybe-zero case is excluded)"""
+    from flow import const_val, defs_of
+    if not is_local_op(rng):
+        return True
+    for org in origins(b, rng):
+        if org[0] in ('param', 'const', 'place'):
+            continue
+        st = org[1]
+        if st.get('k') == 'assign' and st['rv']['k'] == 'agg' and str(st['rv'].get('adt', '')).endswith('RangeFrom'):
+            start = st['rv']['ops'][0]
+            v = const_val(start)
+            if v is not None:
+                m = re.match(r'^(\d+)', str(v))
+                return bool(m) and int(m.group(1)) >= 1
+            for o2 in origins(b, start) if is_local_op(start) else []:
+                if o2[0] == 'place':
+                    # the .0 of a checked addition
+                    for q, s3 in defs_of(b, o2[1]['l']):
+                        if s3.get('k') == 'assign' and s3['rv']['k'] == 'bin' and 'Add' in s3['rv']['op']:
+                            for x in (s3['rv']['a'], s3['rv']['b']):
+                                cv = const_val(x)
+                                m = re.match(r'^(\d+)', str(cv)) if cv is not None else None
+                                if m and int(m.group(1)) >= 1:
+                                    return True
+                    continue
+                if o2[0] in ('param', 'const'):
+                    continue
+                s2 = o2[1]
+                if s2.get('k') == 'assign' and s2['rv']['k'] == 'bin' and 'Add' in s2['rv']['op']:
+                    for x in (s2['rv']['a'], s2['rv']['b']):
+                        cv = const_val(x)
+                        m = re.match(r'^(\d+)', str(cv)) if cv is not None else None
+                        if m and int(m.group(1)) >= 1:
+                            return True
+                    return False
+                if s2.get('k') == 'call' or (s2.get('k') == 'assign' and s2['rv']['k'] in ('use', 'cast')):
+                    return False      # a position found by a search (may be 0), or a plain variable
+            return False
+    return True
+
+
 def loop_progress(b):
     """for every natural loop: is there, on every path header -> back to header, a progress event?
     progress = Iterator::next (or next_back/find/position...) on an iterator, or an assignment to a variable that the
@@ -428,7 +491,7 @@ def loop_progress(b):
         for bi in body:
             blk = b.blocks[bi]
             t = blk['term']
-            if t['k'] == 'call' and call_matches(t, r'Iterator>?::(next|next_back|nth|find|find_map|position|any|all)$|DoubleEndedIterator>?::next_back$|str>::find|<impl str>::(find|strip_prefix)|Vec::<T, A>::pop$|SmallVec::<A>::pop$'):
+            if t['k'] == 'call' and call_matches(t, r'Iterator>?::(next|next_back|nth|find|find_map|position|any|all)$|DoubleEndedIterator>?::next_back$|Vec::<T, A>::pop$|SmallVec::<A>::pop$'):
                 prog.add((bi, len(blk['stmts'])))
             if t['k'] == 'call' and callee_of(t) and any(x in (callee_of(t) or '') for x in ('ArxmlLexer', 'ArxmlParser')) and re.search(r'::(next|read_characters|read_xml_header|read_comment|read_element_start|read_element_end)$', callee_of(t) or ''):
                 prog.add((bi, len(blk['stmts'])))
@@ -438,6 +501,10 @@ def loop_progress(b):
             t = b.blocks[bi]['term']
             if t['k'] == 'switch' and any(s not in body for s in b.succs(bi) if not b.blocks[s]['cleanup']):
                 exit_vars |= source_names(b, t['d']) if is_local_op(t['d']) else set()
+                if is_local_op(t['d']):
+                    # `while let Some(x) = v.find(..)`: the tested value is the discriminant of a call result on v
+                    from flow import deep_sources as _deep
+                    exit_vars |= _deep(b, t['d'], depth=8)[0]
                 # comparison operands
                 for org in origins(b, t['d']) if is_local_op(t['d']) else []:
                     if org[0] not in ('param', 'const', 'place') and org[1].get('k') == 'assign' and org[1]['rv']['k'] == 'bin':
@@ -455,9 +522,22 @@ def loop_progress(b):
             for i, s in enumerate(b.blocks[bi]['stmts']):
                 if s['k'] == 'assign' and s['dst']['l'] in var_locals:
                     # x = x + c, x = &x[k..], x = call(...)
+                    rv = s['rv']
+                    src = rv.get('pl') if 'pl' in rv else rv.get('o')
+                    nonadv = False
+                    if is_local_op(src):
+                        for cst in _origin_calls(b, src['l']):
+                            if call_matches(cst, r'Index<.*>>::index$|::index$') and len(cst['args']) == 2 and not _range_from_advances(b, cst['args'][1]):
+                                nonadv = True
+                    if nonadv:
+                        continue
                     prog.add((bi, i))
             t = b.blocks[bi]['term']
             if t['k'] == 'call' and not t['dst']['p'] and t['dst']['l'] in var_locals:
+                # `x = &x[k..]` only advances if k >= 1 is certain (a constant, or something + constant); `&x[pos..]` with pos
+                # from find()/position() may be `&x[0..]` and is NOT progress
+                if call_matches(t, r'Index<.*>>::index$|::index$') and len(t['args']) == 2 and not _range_from_advances(b, t['args'][1]):
+                    continue
                 prog.add((bi, len(b.blocks[bi]['stmts'])))
         # every cycle through h passes a progress event: remove progress positions, check h not reachable from h inside body
         ok = _no_cycle_without(b, h, body, prog)
@@ -466,27 +546,81 @@ def loop_progress(b):
 
 
 def _no_cycle_without(b, h, body, prog):
+    """True iff no cycle h -> ... -> h inside `body` avoids every progress position.  Boolean flags that are only ever assigned
+    constants inside the loop (`let mut valid = false; .. valid = true; .. if !valid {..}`) are tracked, so that the infeasible
+    combination "flag still false, but the `if !flag` branch not taken" is not followed."""
     from collections import deque
+    from flow import const_val, defs_of
+    flags = set()
+    for l in range(len(b.locals)):
+        if (b.local_ty(l) or '') != 'bool':
+            continue
+        ds = [(q, st) for q, st in defs_of(b, l) if q[0] in body]
+        if ds and all(st['k'] == 'assign' and st['rv']['k'] == 'use' and str(const_val(st['rv']['o'])) in ('true', 'false') for q, st in ds):
+            flags.add(l)
+
+    def flag_of(d):
+        neg = False
+        cur = d
+        for _ in range(4):
+            if not is_local_op(cur) or cur.get('p'):
+                return None
+            if cur['l'] in flags:
+                return cur['l'], neg
+            ds = defs_of(b, cur['l'])
+            if len(ds) != 1 or ds[0][1]['k'] != 'assign':
+                return None
+            rv = ds[0][1]['rv']
+            if rv['k'] == 'use':
+                cur = rv['o']
+            elif rv['k'] == 'un' and rv.get('op') == 'Not':
+                neg = not neg
+                cur = rv['o']
+            else:
+                return None
+        return None
+
     start = (h, 0)
-    seen = set()
-    dq = deque()
-    for n in b._pos_succs(start):
-        if n[0] in body and n not in prog:
-            dq.append(n)
-            seen.add(n)
     if start in prog:
         return True
+    seen = set()
+    dq = deque()
+
+    def step(p, facts):
+        bi, i = p
+        out = []
+        if i < b.nstmts(bi):
+            st = b.blocks[bi]['stmts'][i]
+            f2 = facts
+            if st['k'] == 'assign' and not st['dst']['p'] and st['dst']['l'] in flags:
+                v = str(const_val(st['rv']['o'])) == 'true'
+                f2 = frozenset((k, x) for k, x in facts if k != st['dst']['l']) | {(st['dst']['l'], v)}
+            out.append(((bi, i + 1), f2))
+            return out
+        t = b.blocks[bi]['term']
+        succs = [s_ for s_ in b.succs(bi) if not b.blocks[s_]['cleanup']]
+        if t['k'] == 'switch':
+            fo = flag_of(t['d'])
+            fd = dict(facts)
+            if fo is not None and fo[0] in fd and set(dict(t['ts']).keys()) == {'0'}:
+                val = fd[fo[0]] != fo[1]
+                succs = [t['else'] if val else dict(t['ts'])['0']]
+        for s_ in succs:
+            out.append(((s_, 0), facts))
+        return out
+
+    for n, f in step(start, frozenset()):
+        if n[0] in body and n not in prog:
+            dq.append((n, f)); seen.add((n, f))
     while dq:
-        p = dq.popleft()
+        p, facts = dq.popleft()
         if p == start:
             return False
-        for n in b._pos_succs(p):
-            if n[0] not in body:
+        for n, f in step(p, facts):
+            if n[0] not in body or n in prog:
                 continue
-            if n in seen:
+            if (n, f) in seen:
                 continue
-            seen.add(n)
-            if n in prog:
-                continue
-            dq.append(n)
-    return start not in seen
+            seen.add((n, f))
+            dq.append((n, f))
+    return True
